@@ -4,6 +4,7 @@ import Req.Driver.WireUtil
 import Req.Client.Merge
 import Req.H2.Fields
 import Req.H1.Origin
+import Req.H3.BodyWrite
 /-! Driver lanes of C01. -/
 namespace Req.Driver.L.C01
 open Req.Proto
@@ -228,7 +229,62 @@ def lanePipe : List String → String
     | _, _, _, _, _, _, _, _, _, _, _, _, _, _ => "bad-op"
   | _ => "bad-op"
 
+/-! ### request-body DATA framing (HTTP/2, HTTP/3) -/
+
+def decodeEnding : String → Option Req.H2.BodyWrite.Ending
+  | "eof" => some .eof
+  | "eofl" => some .eofWithLast
+  | "err" => some .error
+  | "errl" => some .errorWithLast
+  | _ => none
+
+def showOutcomeH2 : Req.H2.BodyWrite.Outcome → String
+  | .done => "done"
+  | .tooLong => "toolong"
+  | .readError => "readerr"
+  | .blocked => "blocked"
+
+def showFrameH2 : Req.H2.BodyWrite.Frame → String
+  | .data p e => s!"{p.length}:{b01 e}"
+  | .trailers => "T"
+
+/-- `c01h2body <cl|-1> <trailers 0|1|2> <maxFrame> <buf> <body> <read sizes> <ending> <avails>`:
+`writeRequestBody` — outcome, the (length:END_STREAM) list of the frames (`T` = trailers), the
+reassembled payload, `frameScratchBufferLen`. trailers: 0 none, 1 a trailer block, 2 `req.Trailer`
+non-nil but nothing to send. -/
+def laneH2Body : List String → String
+  | [cl, tr, mf, buf, body, sizes, ending, avails] =>
+    match decodeInt cl, tr.toNat?, mf.toNat?, buf.toNat?, Wire.decodeBody body, decodeNatList sizes,
+          decodeEnding ending, decodeNatList avails with
+    | some cl, some tr, some mf, some buf, some body, some sizes, some ending, some avails =>
+      let cfg : Req.H2.BodyWrite.Cfg :=
+        { maxFrame := mf, buf := buf, cl := if cl < 0 then none else some cl.toNat,
+          hasTrailers := tr != 0, trailerBlock := tr == 1 }
+      let (sent, o) := Req.H2.BodyWrite.writeBody cfg { data := body, sizes := sizes, ending := ending } avails
+      let fs := Req.H2.BodyWrite.frames sent
+      let shown := if fs.isEmpty then "-" else ",".intercalate (fs.map showFrameH2)
+      s!"{showOutcomeH2 o} frames={shown} scratch={Req.H2.Conn.scratchLen cl mf} " ++
+        Wire.showBlob (Req.H2.BodyWrite.payloads fs)
+    | _, _, _, _, _, _, _, _ => "bad-op"
+  | _ => "bad-op"
+
+/-- `c01h3body <buf> <body> <read sizes> <ending>`: `sendRequestBody` + `stream.Write` — outcome,
+the sizes of the `Write` calls, every byte written to the QUIC stream. -/
+def laneH3Body : List String → String
+  | [buf, body, sizes, ending] =>
+    match buf.toNat?, Wire.decodeBody body, decodeNatList sizes, decodeEnding ending with
+    | some buf, some body, some sizes, some ending =>
+      let (ws, o) := Req.H3.BodyWrite.sendBody buf { data := body, sizes := sizes, ending := ending }
+      let os := match o with | .closed => "closed" | .reset => "reset"
+      match Req.H3.BodyWrite.wire ws with
+      | none => "panic"
+      | some w => s!"{os} writes={encodeNatList (ws.map (·.length))} " ++ Wire.showBlob w
+    | _, _, _, _ => "bad-op"
+  | _ => "bad-op"
+
 def lanes : List (String × (List String → String)) := [
+  ("c01h2body", laneH2Body),
+  ("c01h3body", laneH3Body),
   ("c01pipe", lanePipe),
   ("c01h1", laneH1),
   ("c01url", laneUrl),
